@@ -65,8 +65,33 @@ def shot(spec, **override):
                    A.Radian(s.get("cant", 0.0)), atmo(s), winds(s))
 
 
-def calculator(config=None):
-    return pb.Calculator(_config=dict(config)) if config else pb.Calculator()
+PRIORS = ("fire-extra", "fire-subsonic", "zero", "raise")
+_PAST_A = {"table": "TableG7", "bc": 0.3, "mv": 2700.0, "wdl": [168.0, 0.308, 1.2], "sh": 2.5, "twist": 10.0, "zero": 0.002, "look": 0.09,
+           "rel": 0.004, "cant": 0.26, "atmo": {"kind": "icao", "alt": 2500.0}, "winds": [[15.0, 1.2, 100.0], [25.0, -2.0, 1e8]]}
+_PAST_B = {"table": "TableG1", "bc": 0.16, "mv": 900.0, "wdl": [230.0, 0.452, 0.68], "sh": 1.2, "twist": -16.0, "zero": 0.0, "look": 0.0,
+           "rel": 0.01, "cant": 0.0, "atmo": {"kind": "explicit", "alt": 300.0, "p_hpa": 990.0, "t_c": 28.0, "hum": 70.0}, "winds": None}
+
+
+def calculator(config=None, prior=None):
+    """a calculator of the given configuration; with `prior` it is not fresh: it has already computed for another, fixed shot
+    (extra-data fire ending supersonic / plain fire of a subsonic load / a zeroing / a fire that ended in RangeError), which by
+    C10 must not matter to anything computed afterwards"""
+    calc = pb.Calculator(_config=dict(config)) if config else pb.Calculator()
+    if prior:
+        try:
+            if prior == "fire-extra":
+                calc.fire(shot(_PAST_A), D.Foot(300.0), D.Foot(75.0), extra_data=True, time_step=0.01)
+            elif prior == "fire-subsonic":
+                calc.fire(shot(_PAST_B), D.Foot(150.0), D.Foot(50.0))
+            elif prior == "zero":
+                calc.set_weapon_zero(shot(_PAST_A), D.Foot(200.0))
+            elif prior == "raise":
+                calc.fire(shot(_PAST_A, rel=-1.05), D.Foot(1.0e5), D.Foot(2.0e4))
+            else:
+                raise AssertionError(prior)
+        except (pb.RangeError, pb.ZeroFindingError):
+            pass
+    return calc
 
 
 def row_raw(row):
